@@ -165,6 +165,15 @@ theorem Keeps.modify {R : IndexCtx → IndexCtx → Prop} (f : IndexCtx → Inde
   cases hr
   exact h c
 
+theorem IxM.run_bind_ok {α β : Type} {m : IxM α} {f : α → IxM β} {c c' : IndexCtx} {b : β}
+    (h : (m >>= f).run c = .ok (b, c')) : ∃ a c1, m.run c = .ok (a, c1) ∧ (f a).run c1 = .ok (b, c') := by
+  simp only [StateT.run_bind] at h
+  simp only [Bind.bind, Except.bind] at h
+  split at h
+  · cases h
+  · rename_i v hv
+    exact ⟨v.1, v.2, hv, h⟩
+
 /-- extensible: closes goals `Keeps R (primitive ..)` -/
 syntax "keeps_prim" : tactic
 macro_rules | `(tactic| keeps_prim) => `(tactic| fail "no primitive lemma")
